@@ -26,7 +26,7 @@ RULE += ' Since round 8: an empty Path= value.'
 
 
 def contents(rng, rel, k):
-    p = rng.choice(['d/f%d' % k, 'a b/%d' % k, 'pc%%41/%d' % k, 'x%%E9y/%d' % k, 'n%%0Al/%d' % k, 'plain%d' % k, 'tr %d ' % k, 'd/../up%d' % k, './dot%d' % k, 'd//dbl%d' % k, 'd/trail%d/' % k] +
+    p = rng.choice(['d/f%d' % k, 'a b/%d' % k, 'pc%%41/%d' % k, 'x%%E9y/%d' % k, 'n%%0Al/%d' % k, 'pl+us/%d' % k, 'a+b%%2Bc %d' % k, 'plain%d' % k, 'tr %d ' % k, 'd/../up%d' % k, './dot%d' % k, 'd//dbl%d' % k, 'd/trail%d/' % k] +
                    ([''] if k == 0 else []))       # an empty value: the entry is the $topdir itself, for every command
     path = p if rel else '/home/u/' + p
     date = rng.choice(['2024-01-01T00:00:00', '2023-06-15T08:09:10', '2000-02-29T12:00:00'])
@@ -55,7 +55,7 @@ def contents(rng, rel, k):
         t = '[Trash Info]\nPath=%s\n' % path
     else:
         t = '[Trash Info]\nPath =%s\nPath=%s\nDeletionDate=%s\n' % ('/wrong', path, date)
-    return t, v
+    return t, v, path
 
 
 def gen(rng, n):
@@ -87,10 +87,10 @@ def gen(rng, n):
         for k in range(rng.randint(1, 4)):
             td, kind = rng.choice(dirs)
             rel = (kind != 'home') if rng.random() < 0.8 else (kind == 'home')
-            t, variant = contents(rng, rel, k)
+            t, variant, raw = contents(rng, rel, k)
             name = 'e%d' % k
             nodes += scen.entry(td, name, 'x', None, 'f', info_override=t)
-            ents.append({'td': td, 'kind': kind, 'name': name, 'variant': variant, 'rel': rel})
+            ents.append({'td': td, 'kind': kind, 'name': name, 'variant': variant, 'rel': rel, 'raw': raw})
         tdopt = ['--trash-dir', user] if user else []
         steps = [{'cmd': 'list', 'argv': list(tdopt), 'listdir': 'sorted'},
                  {'cmd': 'restore', 'argv': ['/'] + list(tdopt), 'stdin': '\n', 'listdir': 'sorted'}]
@@ -100,7 +100,7 @@ def gen(rng, n):
             # entries of its $topdir/.Trash-$uid are relative to the $topdir under which the directory was FOUND, for every command
             bind = '/bindv'
             for k in range(rng.randint(1, 2)):
-                t, variant = contents(rng, True, 10 + k)
+                t, variant, raw = contents(rng, True, 10 + k)
                 nodes += scen.entry(bind + '/.Trash-%d' % lay.uid, 'b%d' % k, 'x', None, 'f', info_override=t)
                 ents.append({'td': bind + '/.Trash-%d' % lay.uid, 'kind': 'top2', 'name': 'b%d' % k, 'variant': variant, 'rel': True})
         scn = lay.scenario(steps, cwd='/', extra=nodes + scen.canary())
@@ -153,6 +153,14 @@ def judge(run, scn, meta, res, followups, section='state'):
         run.fail('oracle', 'trash-list and trash-restore disagree on the original location of an entry',
                  dict(case, list_paths=[esc(p) for p in lp], restore_paths=[esc(p) for p in rp]), key=key, section=section)
         return
+    # ... and that location is the Path value percent-decoded (nothing else is an escape: a '+' is a '+')
+    from urllib.parse import unquote
+    for e in meta['ents']:
+        dec = unquote(e.get('raw') or '')
+        if dec and not any(p.endswith(dec) for p in lp):
+            run.fail('oracle', 'the location the readers agree on is not the percent-decoded Path value', dict(case, raw=e['raw'], decoded=esc(dec),
+                     listed=[esc(p) for p in lp]), key='location-not-decoded', section=section)
+            return
     ld = sorted((p, d.replace('????-??-?? ??:??:??', 'None')) for d, p in L)
     rd = sorted((p, d) for d, p in R)
     if ld != rd:
